@@ -63,6 +63,11 @@ type Run struct {
 	outcomes   map[string]int
 	deadline   time.Time
 	ReplayPath string
+
+	job        string
+	counters   map[string]int64
+	wviol      map[string]*wViol
+	wviolOrder []string
 }
 
 // New parses the common flags (--tier, --replay) and prepares a run.
@@ -70,12 +75,13 @@ func New(id, level string) *Run {
 	tier := flag.String("tier", envOr("VERIF_TIER", "quick"), "quick|thorough")
 	replay := flag.String("replay", "", "replay file")
 	budget := flag.Duration("budget", 0, "wall-clock budget (0 = tier default)")
+	job := flag.String("job", "", "worker mode: explore one job (JSON) and print partial results")
 	flag.Parse()
 	seed, _ := strconv.ParseInt(envOr("VERIF_SEED", "0"), 10, 64)
 	r := &Run{ID: id, Tier: *tier, Seed: seed, Level: level, start: time.Now(),
 		nontrivial: map[[12]byte]struct{}{}, extra: map[string]any{}, known: map[string]Finding{},
 		knownHit: map[string]int{}, viol: map[string]*violation{}, outcomes: map[string]int{},
-		exhaustive: true, ReplayPath: *replay}
+		exhaustive: true, ReplayPath: *replay, job: *job}
 	if r.Tier != "quick" && r.Tier != "thorough" {
 		r.Tier = "quick"
 	}
@@ -135,9 +141,9 @@ func (r *Run) loadKnown() {
 	}
 }
 
-func (r *Run) Rule(s string)            { r.rule = s }
-func (r *Run) Assume(s ...string)       { r.assume = append(r.assume, s...) }
-func (r *Run) Set(k string, v any)      { r.mu.Lock(); r.extra[k] = v; r.mu.Unlock() }
+func (r *Run) Rule(s string)       { r.rule = s }
+func (r *Run) Assume(s ...string)  { r.assume = append(r.assume, s...) }
+func (r *Run) Set(k string, v any) { r.mu.Lock(); r.extra[k] = v; r.mu.Unlock() }
 func (r *Run) Add(k string, n int64) {
 	r.mu.Lock()
 	cur, _ := r.extra[k].(int64)
@@ -181,6 +187,10 @@ func (r *Run) Sample(v any) {
 func (r *Run) Violation(siteKey, what string, replay any) {
 	r.mu.Lock()
 	defer r.mu.Unlock()
+	if r.job != "" {
+		r.workerViolation(siteKey, what, replay)
+		return
+	}
 	if k, ok := r.known[siteKey]; ok {
 		if r.knownHit[siteKey] == 0 {
 			fmt.Printf("KNOWN-FINDING: property=%s %s [site=%s]\n", r.ID, k.What, siteKey)
@@ -217,6 +227,9 @@ func HarnessError(format string, a ...any) {
 
 // Finish writes the evidence file and exits with 0 or 1.
 func (r *Run) Finish() {
+	if r.job != "" {
+		r.finishWorker(nil)
+	}
 	r.mu.Lock()
 	cov := map[string]any{}
 	for k, v := range r.extra {
@@ -230,6 +243,9 @@ func (r *Run) Finish() {
 	}
 	cov["samples"] = r.samples
 	cov["exhaustive"] = r.exhaustive
+	for k, v := range r.counters {
+		cov[k] = v
+	}
 	if len(r.outcomes) > 0 {
 		cov["distinct_outcomes"] = len(r.outcomes)
 		cov["outcome_counts"] = r.outcomes
@@ -266,7 +282,7 @@ func (r *Run) Finish() {
 	}
 	nviol := len(r.viol)
 	r.mu.Unlock()
-	if r.ReplayPath == "" {
+	if r.ReplayPath == "" && os.Getenv("VERIF_NOEVIDENCE") == "" {
 		b, _ := json.MarshalIndent(ev, "", " ")
 		dir := filepath.Join(Root(), "evidence")
 		_ = os.MkdirAll(dir, 0o755)
